@@ -140,6 +140,162 @@ Proof.
   destruct (is_nil a || endswith a [47]); rewrite <- ?app_assoc; reflexivity.
 Qed.
 
+(* ---------------- CR LF line ends; all separators normalised ---------------- *)
+
+(* "\n" is the only separator, except that "\r" may stand immediately before a "\n" *)
+Fixpoint crlf_only (s : str) : Prop :=
+  match s with
+  | [] => True
+  | c :: s' => (is_linesep c = true -> c = 10 \/ (c = 13 /\ exists s'', s' = 10 :: s'')) /\ crlf_only s'
+  end.
+
+Lemma nosep_crlf_only s : nosep s -> crlf_only s.
+Proof.
+  induction s as [|c s IH]; intro NS; [exact I|]. split.
+  - intro L. left. apply NS; [left; reflexivity | exact L].
+  - apply IH. intros x Hx. apply NS. right. exact Hx.
+Qed.
+
+(* line.rstrip() removes the "\r" that a split at "\n" leaves at the end of a CR LF line;
+   str.splitlines removes it itself *)
+Fixpoint strip_cr (l : str) : str :=
+  match l with
+  | [] => []
+  | c :: l' => match l' with
+               | [] => if c =? 13 then [] else [c]
+               | _ => c :: strip_cr l'
+               end
+  end.
+
+Lemma rstrip_strip_cr l : rstrip (strip_cr l) = rstrip l.
+Proof.
+  unfold rstrip. induction l as [|c l IH]; [reflexivity|]. destruct l as [|x l].
+  - cbn [strip_cr]. destruct (c =? 13) eqn:E; [|reflexivity].
+    apply N.eqb_eq in E. subst. reflexivity.
+  - change (strip_cr (c :: x :: l)) with (c :: strip_cr (x :: l)).
+    cbn [rstrip_by]. cbn [rstrip_by] in IH. rewrite IH. reflexivity.
+Qed.
+
+Lemma strip_cr_cons c l : c <> 13 -> strip_cr (c :: l) = c :: strip_cr l.
+Proof.
+  intro H. destruct l; [|reflexivity]. cbn. apply N.eqb_neq in H. rewrite H. reflexivity.
+Qed.
+
+Lemma strip_cr_nonnil l : strip_cr l <> [] -> l <> [].
+Proof. destruct l; [intro H; exact H | discriminate]. Qed.
+
+Lemma splitlines_crlf s : crlf_only s -> splitlines s = map strip_cr (trim_last (split_nl s)).
+Proof.
+  induction s as [|c s IH]; intro CO; [reflexivity|]. destruct CO as [C1 CO].
+  specialize (IH CO). cbn [splitlines split_nl].
+  destruct (c =? 10) eqn:E.
+  - apply N.eqb_eq in E. subst c. change (is_linesep 10) with true. cbn [N.eqb Pos.eqb].
+    rewrite trim_last_cons by apply split_nl_nonempty. cbn [map strip_cr]. rewrite IH. reflexivity.
+  - destruct (is_linesep c) eqn:L.
+    + destruct (C1 eq_refl) as [C|[C [s'' Es]]]; [apply N.eqb_neq in E; contradiction|].
+      subst c s. cbn [N.eqb Pos.eqb].
+      cbn [splitlines split_nl N.eqb Pos.eqb] in IH. change (is_linesep 10) with true in IH.
+      cbn [N.eqb Pos.eqb] in IH.
+      rewrite trim_last_cons in IH by apply split_nl_nonempty. cbn [map strip_cr] in IH.
+      injection IH as IH. cbn [split_nl N.eqb Pos.eqb].
+      assert (NE := split_nl_nonempty s''). 
+      rewrite trim_last_cons by exact NE. cbn [map strip_cr N.eqb Pos.eqb]. rewrite IH. reflexivity.
+    + assert (C13 : c <> 13).
+      { intro C. subst c. vm_compute in L. discriminate. }
+      rewrite IH. assert (NE := split_nl_nonempty s).
+      destruct (split_nl s) as [|l0 [|l1 ls]]; [contradiction| |].
+      * cbn [trim_last]. destruct l0 as [|x l0].
+        -- cbn [is_nil map]. cbn [trim_last is_nil map]. rewrite (strip_cr_cons c [] C13). reflexivity.
+        -- cbn [is_nil map trim_last]. rewrite (strip_cr_cons c (x :: l0) C13). reflexivity.
+      * change (trim_last (l0 :: l1 :: ls)) with (l0 :: trim_last (l1 :: ls)).
+        change (trim_last ((c :: l0) :: l1 :: ls)) with ((c :: l0) :: trim_last (l1 :: ls)).
+        cbn [map]. rewrite (strip_cr_cons c l0 C13). reflexivity.
+Qed.
+
+(* every line separator (and every CR LF pair) replaced by "\n" *)
+Fixpoint norm_seps (s : str) : str :=
+  match s with
+  | [] => []
+  | c :: s' =>
+      if is_linesep c then
+        10 :: (if c =? 13 then
+                 match s' with
+                 | x :: s'' => if x =? 10 then norm_seps s'' else norm_seps s'
+                 | [] => []
+                 end
+               else norm_seps s')
+      else c :: norm_seps s'
+  end.
+
+(* str.splitlines = split at "\n" after normalising the separators: this is all that
+   distinguishes Sphinx's line splitting from MyST's *)
+Lemma splitlines_norm_aux : forall n s, (length s <= n)%nat ->
+  splitlines s = trim_last (split_nl (norm_seps s)).
+Proof.
+  induction n as [|n IH]; intros s Hlen.
+  - destruct s; [reflexivity | simpl in Hlen; lia].
+  - destruct s as [|c s]; [reflexivity|]. simpl in Hlen. cbn [splitlines norm_seps].
+    destruct (is_linesep c) eqn:L.
+    + cbn [split_nl N.eqb Pos.eqb]. rewrite trim_last_cons by apply split_nl_nonempty. f_equal.
+      destruct (c =? 13).
+      * destruct s as [|x s'']; [reflexivity|]. simpl in Hlen.
+        destruct (x =? 10); apply IH; simpl; lia.
+      * apply IH. lia.
+    + assert (C10 : (c =? 10) = false).
+      { destruct (c =? 10) eqn:E; [|reflexivity]. apply N.eqb_eq in E. subst. vm_compute in L. discriminate. }
+      cbn [split_nl]. rewrite C10. rewrite (IH s) by lia.
+      assert (NE := split_nl_nonempty (norm_seps s)).
+      destruct (split_nl (norm_seps s)) as [|l0 [|l1 ls]]; [contradiction| |].
+      * cbn [trim_last]. destruct l0; reflexivity.
+      * reflexivity.
+Qed.
+
+Lemma splitlines_norm s : splitlines s = trim_last (split_nl (norm_seps s)).
+Proof. apply (splitlines_norm_aux (length s)). lia. Qed.
+
+Lemma norm_seps_nosep s : nosep s -> norm_seps s = s.
+Proof.
+  induction s as [|c s IH]; intro NS; [reflexivity|]. cbn [norm_seps].
+  assert (NS' : nosep s) by (intros x Hx; apply NS; right; exact Hx).
+  destruct (is_linesep c) eqn:L.
+  - assert (c = 10) by (apply NS; [left; reflexivity | exact L]). subst c.
+    cbn [N.eqb Pos.eqb]. rewrite IH by exact NS'. reflexivity.
+  - rewrite IH by exact NS'. reflexivity.
+Qed.
+
+(* ---------------- posixpath.join(a, b), case by case ---------------- *)
+
+(* an absolute second component replaces the first; a first component that is empty or ends
+   in "/" is concatenated; otherwise a "/" is inserted - also when the second one is empty *)
+Lemma pjoin_spec a b :
+  (startswith b [47] = true -> pjoin a b = b) /\
+  (startswith b [47] = false -> a = [] -> pjoin a b = b) /\
+  (startswith b [47] = false -> endswith a [47] = true -> pjoin a b = a ++ b) /\
+  (startswith b [47] = false -> a <> [] -> endswith a [47] = false -> pjoin a b = a ++ [47] ++ b).
+Proof.
+  unfold pjoin. repeat split; intros.
+  - rewrite H. reflexivity.
+  - rewrite H. subst a. reflexivity.
+  - rewrite H, H0, orb_true_r. reflexivity.
+  - rewrite H, H1. destruct a; [contradiction|]. reflexivity.
+Qed.
+
+Lemma pjoin_absolute a b : pjoin a (47 :: b) = 47 :: b.
+Proof. unfold pjoin. cbn [startswith]. rewrite N.eqb_refl, startswith_nil. reflexivity. Qed.
+
+Lemma pjoin_nil_l b : pjoin [] b = b.
+Proof. unfold pjoin. destruct (startswith b [47]); reflexivity. Qed.
+
+Lemma pjoin_nil_r a : a <> [] -> endswith a [47] = false -> pjoin a [] = a ++ [47].
+Proof. intros H E. unfold pjoin. cbn [startswith]. rewrite E. destruct a; [contradiction|]. reflexivity. Qed.
+
+Lemma pjoin_slash a b : startswith b [47] = false -> endswith a [47] = true -> pjoin a b = a ++ b.
+Proof. intros. apply pjoin_spec; assumption. Qed.
+
+Lemma pjoin_plain a b : startswith b [47] = false -> a <> [] -> endswith a [47] = false ->
+  pjoin a b = a ++ [47] ++ b.
+Proof. intros. apply pjoin_spec; assumption. Qed.
+
 (* ---------------- the decode oracle ---------------- *)
 
 (* bytes.decode() (strict UTF-8): an ASCII byte is never part of a multi-byte sequence *)
